@@ -5,6 +5,7 @@ import (
 	"flag"
 	"fmt"
 	"os"
+	"runtime/pprof"
 	"strconv"
 	"strings"
 	"time"
@@ -20,11 +21,18 @@ func main() {
 	case "cvc5":
 		smt.Primary = smt.CVC5
 	}
+	if pf := os.Getenv("VERIF_PROF"); pf != "" {
+		f, _ := os.Create(pf)
+		pprof.StartCPUProfile(f)
+		defer pprof.StopCPUProfile()
+	}
 	if len(os.Args) > 1 && os.Args[1] == "job" {
 		jobCmd(os.Args[2:])
 		return
 	}
-	os.Exit(checkMain(os.Args[1:]))
+	rc := checkMain(os.Args[1:])
+	pprof.StopCPUProfile()
+	os.Exit(rc)
 }
 
 // jobCmd: vsym job [-known a,b] Harness k=v ...   (debugging aid)
@@ -34,6 +42,7 @@ func jobCmd(args []string) {
 	repo := fs.String("repo", "/repo", "")
 	hd := fs.String("harness", "/verif/harness", "")
 	log := fs.String("smtlog", "", "")
+	abs := fs.Bool("abs", false, "abstract CRC16")
 	fs.Parse(args)
 	rest := fs.Args()
 	t0 := time.Now()
@@ -43,7 +52,7 @@ func jobCmd(args []string) {
 		os.Exit(2)
 	}
 	fmt.Printf("loaded in %.1fs\n", time.Since(t0).Seconds())
-	job := sym.Job{Harness: rest[0], Params: map[string]int{}}
+	job := sym.Job{Harness: rest[0], Params: map[string]int{}, AbstractCRC: *abs}
 	for _, kv := range rest[1:] {
 		p := strings.SplitN(kv, "=", 2)
 		v, _ := strconv.Atoi(p[1])
